@@ -482,6 +482,9 @@ func init() {
 				}
 			}
 		}
+		for _, how := range []string{"error-then-exit", "exit", "stall"} {
+			out = append(out, generationScenario(how))
+		}
 		return out
 	}})
 }
